@@ -228,6 +228,116 @@ static std::string cmd_exec(const std::vector<std::string>& a) {
     return o.str();
 }
 
+// run `fn` in a child process (the library code calls exit(1) on some inputs); returns its output or EXIT<n>/CRASH
+template <typename F> static std::string in_child(F fn) {
+    int fds[2];
+    if (pipe(fds) != 0) return "HARNESS-EXC pipe";
+    pid_t pid = fork();
+    if (pid == 0) {
+        close(fds[0]);
+        std::string s;
+        try { s = fn(); } catch (const std::exception& e) { s = std::string("UNCAUGHT ") + e.what(); }
+        (void)!write(fds[1], s.c_str(), s.size());
+        _exit(0);
+    }
+    close(fds[1]);
+    std::string got; char buf[65536]; ssize_t n;
+    while ((n = read(fds[0], buf, sizeof buf)) > 0) got.append(buf, n);
+    close(fds[0]);
+    int status = 0; waitpid(pid, &status, 0);
+    if (WIFSIGNALED(status)) return "CRASH sig=" + std::to_string(WTERMSIG(status));
+    if (WEXITSTATUS(status) != 0) return "EXIT" + std::to_string(WEXITSTATUS(status));
+    return got;
+}
+
+static std::vector<std::string> words_of(const std::vector<std::string>& a, size_t from) {
+    std::vector<std::string> w;
+    for (size_t i = from; i < a.size(); i++) { valtype raw; unhex(a[i].empty() ? "-" : a[i], raw); w.emplace_back(raw.begin(), raw.end()); }
+    return w;
+}
+
+// BTCC <word1 hex> <word2 hex> ... : Value::serialize(Value::parse_args(argv)) as btcc's main does
+static std::string cmd_btcc(const std::vector<std::string>& a) {
+    std::vector<std::string> w = words_of(a, 1);
+    return in_child([&]() {
+        std::vector<const char*> args;
+        for (auto& x : w) args.push_back(x.c_str());
+        std::vector<Value> result = Value::parse_args(args);
+        return "OK " + Value::serialize(result);
+    });
+}
+static const char* vtype_name(const Value& v) {
+    switch (v.type) { case Value::T_STRING: return "str"; case Value::T_INT: return "int"; case Value::T_DATA: return "data"; case Value::T_OPCODE: return "op"; }
+    return "?";
+}
+// VALUE <text hex> : Value(text): type, data_value, hex_str, int_value
+static std::string cmd_value(const std::vector<std::string>& a) {
+    std::vector<std::string> w = words_of(a, 1);
+    std::string text = w.empty() ? "" : w[0];
+    return in_child([&]() {
+        Value v(text.c_str());
+        std::ostringstream o;
+        o << "OK " << vtype_name(v) << " data=" << hex(v.data_value()) << " hex=" << v.hex_str();
+        if (v.type != Value::T_STRING) o << " int=" << v.int_value();
+        return o.str();
+    });
+}
+
+CTransactionRef parse_tx(const char* p);   // instance.cpp
+
+static std::string tx_line(const CTransaction& tx, size_t rest) {
+    std::ostringstream o;
+    o << "OK v=" << tx.nVersion << " lock=" << tx.nLockTime << " wit=" << (tx.HasWitness() ? 1 : 0) << " in=[";
+    for (size_t i = 0; i < tx.vin.size(); i++) {
+        const CTxIn& in = tx.vin[i];
+        if (i) o << ";";
+        o << HexStr(Span<const unsigned char>(in.prevout.hash.begin(), 32)) << ":" << in.prevout.n << ":" << HexStr(in.scriptSig) << ":" << in.nSequence << ":";
+        if (in.scriptWitness.stack.empty()) o << "-";
+        for (size_t k = 0; k < in.scriptWitness.stack.size(); k++) { if (k) o << "."; o << (in.scriptWitness.stack[k].empty() ? std::string("_") : hex(in.scriptWitness.stack[k])); }
+    }
+    o << "] out=[";
+    for (size_t i = 0; i < tx.vout.size(); i++) { if (i) o << ";"; o << tx.vout[i].nValue << ":" << HexStr(tx.vout[i].scriptPubKey); }
+    CDataStream w(SER_NETWORK, PROTOCOL_VERSION); w << tx;
+    CDataStream nw(SER_NETWORK, PROTOCOL_VERSION | SERIALIZE_TRANSACTION_NO_WITNESS); nw << tx;
+    uint256 h = tx.GetHash();
+    valtype hv(h.begin(), h.end()); std::reverse(hv.begin(), hv.end());
+    o << "] ser=" << HexStr(w) << " nowit=" << HexStr(nw) << " txid=" << hex(hv) << " rest=" << rest;
+    return o.str();
+}
+
+// TXPARSE <hex of the text given to --tx/--txin> : parse_tx as the tools call it
+static std::string cmd_txparse(const std::vector<std::string>& a) {
+    valtype raw; unhex(a.size() > 1 ? a[1] : "-", raw);
+    std::string text(raw.begin(), raw.end());
+    try {
+        CTransactionRef tx = parse_tx(text.c_str());
+        if (!tx) return "ERR";
+        return tx_line(*tx, 0);
+    } catch (const std::exception& e) { return "ERR"; }
+}
+// AMOUNT <hex of the text>
+static std::string cmd_amount(const std::vector<std::string>& a) {
+    valtype raw; unhex(a.size() > 1 ? a[1] : "-", raw);
+    std::string text(raw.begin(), raw.end());
+    CAmount v;
+    if (!ParseFixedPoint(text, 8, &v)) return "ERR";
+    return "OK " + std::to_string(v);
+}
+// TXARG <hex of the --tx argument text> : Instance::parse_transaction(text, true)
+static std::string cmd_txarg(const std::vector<std::string>& a) {
+    valtype raw; unhex(a.size() > 1 ? a[1] : "-", raw);
+    std::string text(raw.begin(), raw.end());
+    Instance inst;
+    try {
+        if (!inst.parse_transaction(text.c_str(), true)) return "ERR";
+    } catch (const std::exception& e) { return "ERR"; }
+    std::ostringstream o;
+    o << "OK amounts=";
+    for (size_t i = 0; i < inst.amounts.size(); i++) { if (i) o << ","; o << inst.amounts[i]; }
+    o << " " << tx_line(*inst.tx, 0);
+    return o.str();
+}
+
 // FLAGS <hex of the modification string> : svf_parse_flags(STANDARD, mod) in a child process (it calls exit(1) on rejection)
 static std::string cmd_flags(const std::vector<std::string>& a) {
     valtype raw; unhex(a.size() > 1 ? a[1] : "-", raw);
@@ -303,6 +413,11 @@ static std::string dispatch(const std::string& line) {
         if (a[0] == "RUNV") return cmd_run(a, true);
         if (a[0] == "EXEC") return cmd_exec(a);
         if (a[0] == "FLAGS") return cmd_flags(a);
+        if (a[0] == "TXPARSE") return cmd_txparse(a);
+        if (a[0] == "BTCC") return cmd_btcc(a);
+        if (a[0] == "VALUE") return cmd_value(a);
+        if (a[0] == "AMOUNT") return cmd_amount(a);
+        if (a[0] == "TXARG") return cmd_txarg(a);
         if (a[0] == "SESSION") return cmd_session(a, false);
         if (a[0] == "SESSIONV") return cmd_session(a, true);
     } catch (const std::exception& e) {
